@@ -155,6 +155,12 @@ func (p *Printer) LST(imports []refbin.Import, symbols []refbin.Slot, appendMode
 				p.w(",")
 				p.space(false)
 				p.w([]string{"max_id", "$8"}[p.C.Intn(2)] + ":" + strconv.Itoa(imp.MaxID))
+			} else if p.C.Intn(4) == 0 {
+				// a max_id that is present but undefined (null, not an int, negative)
+				// is as good as none
+				p.w(",")
+				p.space(false)
+				p.w("max_id:" + []string{"null.int", "null", "-1", "null.string", "1.0"}[p.C.Intn(5)])
 			}
 			if extra && p.C.Intn(3) == 0 {
 				// open content inside an import descriptor
